@@ -40,6 +40,17 @@ def strategy(tier):
     })
 
 
+def extra_cases(tier, seed, shard, nshards):
+    from checks import c11_real
+    cs = c11_real.cells(tier)
+    for i, c in enumerate(cs):
+        if (i + seed) % nshards == shard:
+            yield c
+
+
+EXHAUSTIVE_NOTE = "engine R: every (worker class x hang mode) and (worker class x healthy load shape) cell is run in both tiers"
+
+
 def run_case(case):
     if case.get("engine") == "R":
         from checks import c11_real
